@@ -7,19 +7,25 @@ from ..gen import cutgen as CG
 
 PID = "C17"
 TITLE = "Tutte's embedding is a fold-free planar embedding onto the convex target"
-LEAN_MODULES = ["Mouette.Props.C17"]
+LEAN_MODULES = ["Mouette.Props.C17", "Mouette.Props.C17Source"]
 REQUIRED_THEOREMS = ["gate_iff", "storage_agree", "lap_row_sums_zero", "interior_is_weighted_average",
                      "interior_is_weighted_average_div", "orient2d_swap", "orient2d_cycle", "orient2d_sign_affine",
                      "orient2d_zero_iff_collinear", "orient2d_inside", "square_boundary_on_square", "square_boundary_distinct",
                      "square_boundary_cyclic_order", "square_boundary_length", "square_boundary_source",
                      "accepted_case_weighted_average", "circle_boundary_model", "circle_boundary_distinct", "circle_boundary_on_circle",
                      "circle_boundary_convex_position", "circle_boundary_cyclic_order",
-                     "gate_source", "circle_boundary_source", "custom_boundary_source"]
+                     "gate_source", "circle_boundary_source", "custom_boundary_source",
+                     # round 4: bridges to the system assembly translated from the source + the discrete maximum principle
+                     "laplacian_source", "lap_row_sums_zero_source", "system_source", "storage_source", "from_string_source",
+                     "flat_mesh_source", "max_principle_model", "interior_in_every_halfplane_of_border",
+                     "interior_strictly_inside_halfplane", "tutte_interior_in_hull_source"]
 TRUSTED = [
     "Lean 4.33.0 kernel; axioms ⊆ {propext, Classical.choice, Quot.sound}",
     "hand-written model Mouette/Model/Tutte.lean (_initialize_boundary, Laplacian triplets, free/border partition, exact rational "
     "solve, per-vertex / per-corner storage) tied to tutte.py / laplacian_op.py by the correspondence of this run; the square-mode "
-    "corner indices, ranges and affine expressions are re-translated from the source on every run (Generated/C17Tutte.lean)",
+    "corner indices, ranges and affine expressions are re-translated from the source on every run (Generated/C17Tutte.lean); round 4: "
+    "the Laplacian assembly (laplacian_op.py: laplacian), the sub-matrices / right-hand sides / storage loops of run(), from_string and "
+    "the keys of flat_mesh are re-translated as well (Generated/C17Sys.lean, vocabulary Model/TutteSource.lean) with bridge theorems",
     "scipy.sparse.linalg.spsolve, cmath.rect, the cotangent attribute (C07/C08) are external: the model solves the same system in exact "
     "rational arithmetic (cotangents are taken over from the implementation as exact rationals of the floats) and is compared at "
     "1e-9*scale+1e-12",
@@ -128,7 +134,9 @@ def _embed(mesh, case, corners, mode=None, cotan=None, between=None):
     if mode == "custom":
         carr = _custom_array(mesh, case)
         kw["custom_boundary"] = carr
-    emb = M.parametrization.TutteEmbedding(mesh, boundary_mode=("square" if mode == "square" else "circle"),
+    # with a custom boundary the documented behaviour is "the boundary_mode argument is ignored": both values are passed
+    bm = "square" if (mode == "square" or (mode == "custom" and len(case["F"]) % 2 == 1)) else "circle"
+    emb = M.parametrization.TutteEmbedding(mesh, boundary_mode=bm,
                                            use_cotan=bool(case["cotan"]), verbose=False, save_on_corners=corners, **kw)
     before = None if carr is None else np.array(carr, dtype=float, copy=True)
     if between is not None:
@@ -477,7 +485,9 @@ def classify(case, obs):
     st = stats(case)
     ks = [f"mode:{case['mode']}", f"weights:{'cotan' if case['cotan'] else 'uniform'}", f"storage:{'corner' if case['corners'] else 'vertex'}",
           "fam:" + case.get("tag", "?"), "coords:" + case.get("coords", "float"), "hist:" + case.get("hist", "none")]
-    if case["mode"] == "custom": ks.append("crep:" + case.get("crep", "f64"))
+    if case["mode"] == "custom":
+        ks.append("crep:" + case.get("crep", "f64"))
+        ks.append("custom-with-boundary_mode-arg:" + ("square" if len(case["F"]) % 2 == 1 else "circle"))
     if is_disk(case):
         n = len(border_cycle(case["F"]))
         ks += [f"border%4:{n % 4}", "border:" + ("3" if n == 3 else "<=8" if n <= 8 else "<=20" if n <= 20 else ">20"),
@@ -759,8 +769,36 @@ def _translate_rest():
 
 def translate():
     from .. import translate as T
+    from ..gen import c17_translate
     return [T.site("tutte.py: TutteEmbedding._initialize_boundary (SQUARE branch: corners, ranges, affine expressions)", _translate_square),
-            T.site("tutte.py: _initialize_boundary CIRCLE + CUSTOM branches, run(): Euler gate and border order", _translate_rest)]
+            T.site("tutte.py: _initialize_boundary CIRCLE + CUSTOM branches, run(): Euler gate and border order", _translate_rest)] \
+        + c17_translate.sites()
+
+
+_TUT = "mouette/processing/parametrization/tutte.py::TutteEmbedding."
+_LAPF = "mouette/operators/laplacian_op.py::"
+_BRD = "mouette/processing/border.py::"
+SOURCE_MAP = {
+    _TUT + "BoundaryMode.from_string": "translated",
+    _TUT + "__init__": "oracle-only",
+    _TUT + "run": "translated",
+    _TUT + "_initialize_boundary": "translated",
+    "mouette/processing/parametrization/base.py::BaseParametrization.__init__": "oracle-only",
+    "mouette/processing/parametrization/base.py::BaseParametrization.run": "out-of-scope: abstract method",
+    "mouette/processing/parametrization/base.py::BaseParametrization.flat_mesh": "translated: the keys read per corner / per vertex and the zero third coordinate; the lazy copy is oracle-only",
+    _LAPF + "graph_laplacian": "out-of-scope: not used by TutteEmbedding",
+    _LAPF + "graph_laplacian.add": "out-of-scope: not used by TutteEmbedding",
+    _LAPF + "laplacian": "translated: the branch `connection is None` (the only one TutteEmbedding reaches)",
+    _LAPF + "cotan_edge_diagonal": "out-of-scope: not used by TutteEmbedding",
+    _LAPF + "laplacian_triangles": "out-of-scope: not used by TutteEmbedding",
+    _LAPF + "laplacian_edges": "out-of-scope: not used by TutteEmbedding",
+    _LAPF + "volume_laplacian": "out-of-scope: not used by TutteEmbedding",
+    _LAPF + "laplacian_tetrahedra": "out-of-scope: not used by TutteEmbedding",
+    _BRD + "extract_border_cycle": "oracle-only",
+    _BRD + "extract_border_cycle_all": "out-of-scope: not used by TutteEmbedding (C15)",
+    _BRD + "extract_boundary_of_surface": "out-of-scope: not used by TutteEmbedding (C15)",
+    _BRD + "extract_boundary_of_volume": "out-of-scope: not used by TutteEmbedding (C03)",
+}
 
 
 MANIFEST = {
@@ -782,6 +820,17 @@ MANIFEST = {
                    "with bridge theorems (gate_source, circle_boundary_source, custom_boundary_source). The property is also checked on "
                    "histories (run() twice, a second embedder on a mesh that already carries uv_coords) and representations (integer and "
                    "binary32 coordinates; custom arrays of dtype float32/int64, Fortran-ordered, read-only, strided), by value. "
+                   "ROUND 4 - TIE: the Laplacian assembly of laplacian_op.py (uniform weights 0.5, cot/2 for (p,q,r), the pairing [(p,q,c),(q,r,a),(r,p,b)], "
+                   "the four COO writes per pair, n_coeffs, flag-first selection of the cotangents), the sub-matrices lap[free,:][:,free] / lap[free,:][:,bnd], "
+                   "the right-hand sides -LB.dot(Ubnd) / -LB.dot(Vbnd), the four storage loops of run(), the from_string table and the keys read by "
+                   "flat_mesh are re-translated from the source on every run (Generated/C17Sys.lean) with bridge theorems (laplacian_source, "
+                   "lap_row_sums_zero_source, system_source: a solution of the system AS WRITTEN puts every free vertex at the weighted average of its "
+                   "neighbours; storage_source, from_string_source, flat_mesh_source). ROUND 4 - DISCRETE MAXIMUM PRINCIPLE on exact rationals: with "
+                   "positive weights (uniform always; cotangent when every corner cotangent is positive), neighbours of free vertices free or on the "
+                   "border, and every free vertex joined to the border through free vertices, every closed half-plane containing the border positions "
+                   "contains every interior position (the interior lies in the convex hull of the border: max_principle_model, "
+                   "interior_in_every_halfplane_of_border, tutte_interior_in_hull_source from the system as written), strictly as soon as the vertex "
+                   "reaches a border vertex strictly inside the half-plane (interior_strictly_inside_halfplane). "
                    "NOT proved - checked on every run: Tutte/Floater (every triangle has the same strict orientation: exact orient2d on "
                    "Fractions of the output floats, uniform weights always, cotangent weights when non-negative, square target when no "
                    "triangle has its three vertices on one side); that the solver's output solves the system (exact model solution compared "
